@@ -371,6 +371,90 @@ pub fn sweep_c18(seed: u64, exhaust_len: usize, sampled: u64) -> CompOutcome {
     CompOutcome { stats, found, exhaustive_upto: exhaust_len }
 }
 
+/// PRNG-side boundary hunt: the upper bound of a half-open range is only produced by an inclusive
+/// slip when the underlying uniform sample is maximal, i.e. with probability 1/(span+1) per draw.
+/// For every span of the grid up to 2^32 + 1 enough draws are made on real `Rand` sources that the
+/// top value would be hit several times (2^33.6 draws for the spans around 2^32, where the
+/// sampling method of rand changes from 32-bit to 64-bit words).
+pub fn prng_boundary_hunt(seed: u64, draws_wide: u64, stats: &mut Stats) -> Vec<Found2> {
+    let spans: [(usize, u64); 9] = [
+        (2, 4_096),
+        (3, 4_096),
+        (255, 65_536),
+        (256, 65_536),
+        (257, 65_536),
+        (65_536, 8_000_000),
+        ((1usize << 32) - 1, draws_wide),
+        (1usize << 32, draws_wide),
+        ((1usize << 32) + 1, draws_wide),
+    ];
+    let nt = crate::engine::n_threads() as u64;
+    let mut found = vec![];
+    for (si, (span, draws)) in spans.iter().enumerate() {
+        let per = draws / nt + 1;
+        let res: Vec<(u64, u64, Option<(u64, u64, usize, usize)>)> = std::thread::scope(|s| {
+            let hs: Vec<_> = (0..nt)
+                .map(|t| {
+                    s.spawn(move || {
+                        let sd = desc::derive_seed(seed, "C18.hunt", (si as u64) << 8 | t);
+                        let mut rng = ChaCha8Rng::seed_from_u64(sd);
+                        let mut src = GenerationSource::Rand(&mut rng);
+                        let base = if t % 2 == 0 { 0usize } else { 7 };
+                        let (mut top, mut n) = (0u64, 0u64);
+                        let mut bad = None;
+                        for i in 0..per {
+                            let x = src.gen_range(base, base + span);
+                            n += 1;
+                            if x == base + span - 1 {
+                                top += 1;
+                            }
+                            if x < base || x >= base + span {
+                                bad = Some((sd, i, base, x));
+                                break;
+                            }
+                            if i % (1 << 22) == 0 {
+                                crate::engine::tick();
+                            }
+                        }
+                        (n, top, bad)
+                    })
+                })
+                .collect();
+            hs.into_iter().map(|h| h.join().unwrap()).collect()
+        });
+        let mut tops = 0;
+        for (n, top, bad) in res {
+            stats.evaluations += n;
+            tops += top;
+            if let Some((sd, i, base, x)) = bad {
+                if found.is_empty() {
+                    found.push(Found2 {
+                        index: i,
+                        case: json!({"hunt": {"prng_seed": sd.to_string(), "draws_before": i.to_string(), "a": base.to_string(), "b": (base + span).to_string()}}),
+                        violation: Violation::new("C18", "out-of-range(gen_range)", format!("PRNG source: gen_range({}, {}) returned {} on draw #{} of ChaCha8Rng::seed_from_u64({})", base, base + span, x, i, sd)),
+                    });
+                }
+            }
+        }
+        stats.add(&format!("probe.prng_draws_hitting_the_last_value_of_span_{}", span), tops);
+    }
+    found
+}
+
+fn replay_hunt(h: &Value) -> Vec<Violation> {
+    let g = |k: &str| h[k].as_str().and_then(|s| s.parse::<u64>().ok()).unwrap_or(0);
+    let (sd, n, a, b) = (g("prng_seed"), g("draws_before"), g("a") as usize, g("b") as usize);
+    let mut rng = ChaCha8Rng::seed_from_u64(sd);
+    let mut src = GenerationSource::Rand(&mut rng);
+    for i in 0..=n {
+        let x = src.gen_range(a, b);
+        if x < a || x >= b {
+            return vec![Violation::new("C18", "out-of-range(gen_range)", format!("gen_range({}, {}) returned {} on draw #{}", a, b, x, i))];
+        }
+    }
+    vec![]
+}
+
 // ------------------------------------------------------------------------------------------
 // mutator methods called directly (C15 rate extremes, C16 contracts)
 
@@ -760,6 +844,7 @@ pub fn sweep_mutators(prop: &'static str, seed: u64, rounds: u64) -> CompOutcome
 /// replay of a comp case
 pub fn replay(prop: &str, case: &Value) -> Vec<Violation> {
     match prop {
+        "C18" if case.get("hunt").is_some() => replay_hunt(&case["hunt"]),
         "C18" => SourceCase::from_json(case).and_then(|c| eval_source_case(&c).1).into_iter().collect(),
         "C15" => MutCase::from_json(case).and_then(|c| eval_c15(&c)).into_iter().collect(),
         "C16" => MutCase::from_json(case).and_then(|c| eval_c16(&c).1).into_iter().collect(),
